@@ -265,18 +265,58 @@ def sanitiser_shape(prog, an, rep):
             rep.violation(R, q + ': mask_pwd', g.where(), 'the local '
                           'sanitiser mask_pwd is gone')
             continue
-        text = src(m.node)
-        ok = "data.replace(pwd, '***')" in text and 'if pwd else data' in text
-        rets = [r for r in walk_local(m.node, include_root=False)
-                if isinstance(r, ast.Return)]
-        ok = ok and all('replace(' in src(r.value) for r in rets)
+        # the secret: the local bound to the mask_pwd keyword
+        pvar = None
+        for n in walk_local(g.node, include_root=False):
+            if isinstance(n, ast.Assign) and len(n.targets) == 1 and \
+                    isinstance(n.targets[0], ast.Name) and \
+                    isinstance(n.value, ast.Call) and \
+                    isinstance(n.value.func, ast.Attribute) and \
+                    n.value.func.attr in ('get', 'pop') and \
+                    src(n.value.func.value) == g.node.args.kwarg.arg and \
+                    n.value.args and is_const(n.value.args[0], 'mask_pwd'):
+                pvar = n.targets[0].id
+        rep.check(pvar is not None, R, q + ': the mask comes from the '
+                  'mask_pwd keyword', g.where(), 'no local is bound to '
+                  'kwargs.get/pop("mask_pwd")')
+        if pvar is None or not m.params:
+            continue
+        data = m.params[0]
+        mc = an.cfg(m)
+
+        def masks(e):
+            return isinstance(e, ast.Call) and \
+                isinstance(e.func, ast.Attribute) and \
+                e.func.attr == 'replace' and src(e.func.value) == data and \
+                len(e.args) == 2 and \
+                src(e.args[0]) in (pvar, pvar + '.encode()') and \
+                isinstance(e.args[1], ast.Constant)
+        no_secret = an.branch_nodes(
+            m, lambda e: isinstance(e, ast.Name) and e.id == pvar, False)
+        rets = [r for r in mc.nodes.values() if r.kind == 'return']
+        ok = bool(rets)
+        shown = []
+        for r in rets:
+            v = r.ast.value
+            shown.append(src(v) if v is not None else 'None')
+            if v is not None and masks(v):
+                continue
+            if isinstance(v, ast.IfExp) and src(v.test) == pvar and \
+                    masks(v.body) and src(v.orelse) == data:
+                continue
+            if v is not None and src(v) == data:
+                # the text is returned unchanged only when there is no
+                # secret to mask
+                o, _ = mc.must_pass(no_secret, r.id)
+                if o and no_secret:
+                    continue
+            ok = False
+        if mc.exit in mc.reachable() and any(
+                mc.nodes[p_].kind != 'return' for p_ in mc.pred[mc.exit]):
+            ok = False
         rep.check(ok, R, q + ': mask_pwd replaces the password by ***',
-                  m.where(), 'mask_pwd no longer masks: %s' % text[:120])
-        pw = [v for _, v in stores_to(g, 'pwd') if v is not None]
-        rep.check(len(pw) == 1 and src(pw[0]) in (
-            "kwargs.get('mask_pwd', None)", "kwargs.pop('mask_pwd', None)"),
-            R, q + ': the mask comes from the mask_pwd keyword', g.where(),
-            'pwd is bound as %s' % [src(v) for v in pw])
+                  m.where(), 'mask_pwd no longer masks on every path: '
+                  'returns %s' % shown)
 
 
 def job_report(prog, an, rep):
